@@ -119,7 +119,8 @@ def c01(tier, seed):
 def c03(tier, seed):
     t0 = time.time(); prop = "C03"
     variants = ["rel", "dbg", "sec"]
-    cases = seq_cases(prop, "aligned", variants, tier_n(tier, 32, 500), tier_n(tier, 3000, 8000), seed)
+    # every fourth history has helper threads: over-aligned blocks freed by other threads, and threads that terminate with live over-aligned blocks (adopted and freed here)
+    cases = seq_cases(prop, "aligned", variants, tier_n(tier, 32, 500), tier_n(tier, 3000, 8000), seed, per_case=lambda i, v: ((["--threads", 1] if i % 4 == 3 else []), {}))
     # the debug-build rejection of pointers that are not word aligned is exercised by a dedicated case (known finding)
     cases += seq_cases(prop, "aligned", ["dbg"], 1, 600, seed, extra_args=["--debug", 0], label_prefix="unaligned-", start_index=100000)
     v = Verdict(prop)
@@ -211,6 +212,11 @@ def c17(tier, seed):
     t0 = time.time(); prop = "C17"
     cases = seq_cases(prop, "hardening", ["sec"], tier_n(tier, 32, 400), tier_n(tier, 3000, 8000), seed)
     cases += seq_cases(prop, "hardening", ["dbg"], tier_n(tier, 64, 1500), 500, seed, start_index=50000)
+    # dedicated cases of the recorded findings K4-K6 (known_findings.json): one short history each
+    for sc, vs in (("delayed-forged", ["sec", "dbg"]), ("delayed-double", ["sec", "dbg"]), ("sized-double", ["dbg"])):
+        ded = seq_cases(prop, "hardening", vs, 1, 100, seed, extra_args=["--scenario", sc], label_prefix=sc + "-", start_index=90000)
+        for c in ded: c.meta["dedicated"] = sc; c.meta["scenario"] = sc
+        cases += ded
     v = Verdict(prop)
     for c in core.run_cases(cases): v.add(c)
     cov = seq_cov(cases)
@@ -427,8 +433,8 @@ MT_SCEN_ARGS = {
                  lambda r: ["--threads", r.choice([3, 5, 8]), "--rounds", r.choice([200, 600]), "--live", r.choice([32, 600, 3000, 8000])]),
     "exit":     (lambda r: ["--threads", r.choice([2, 3, 4, 4]), "--ops", r.choice([40, 100, 200]), "--rounds", r.choice([2, 3, 5]), "--exit-mode", r.choice([0, 1, 2]), "--subprocs", r.choice([0, 0, 2])],
                  lambda r: ["--threads", r.choice([4, 6, 8]), "--ops", r.choice([3000, 8000]), "--rounds", r.choice([4, 8]), "--exit-mode", r.choice([0, 2]), "--subprocs", r.choice([0, 2])]),
-    "arena":    (lambda r: ["--threads", r.choice([2, 3, 4]), "--ops", r.choice([30, 60, 120]), "--arena-blocks", r.choice([64, 96, 100, 128, 128, 130, 160, 192])],
-                 lambda r: ["--threads", r.choice([4, 6, 8]), "--ops", r.choice([400, 1500]), "--arena-blocks", r.choice([64, 96, 100, 128, 130, 160, 192])]),
+    "arena":    (lambda r: ["--threads", r.choice([2, 3, 4]), "--ops", r.choice([30, 60, 120]), "--arena-blocks", r.choice([32, 40, 64, 72, 96, 100, 128, 128, 130, 160, 192])],
+                 lambda r: ["--threads", r.choice([4, 6, 8]), "--ops", r.choice([400, 1500]), "--arena-blocks", r.choice([32, 40, 64, 72, 96, 100, 128, 130, 160, 192])]),
 }
 MT_ENVS = {
     "xfree": [{}],
